@@ -35,10 +35,10 @@ type httpCase struct {
 }
 
 type httpWorld struct {
-	w       *World
-	mu      sync.Mutex
-	cases   map[int]*httpCase
-	tunnels map[string]*httpTunnel
+	w         *World
+	mu        sync.Mutex
+	cases     map[int]*httpCase
+	tunnels   map[string]*httpTunnel
 	streamAck map[string]chan struct{} // interactive streams: closed by the user once the first piece has arrived
 	// plugin worlds
 	userTLS    *tls.Config // users speak TLS to the public endpoint
